@@ -120,6 +120,9 @@ pub fn repair_once<R: Read>(par: &Par, input: R, unauth: bool, orig: &HashMap<St
             Err(e) => return Ok(json!({"st": "Fatal", "detail": format!("{e:?}").chars().take(60).collect::<String>(),
                                        "files": [], "unf": [], "opens": true})),
         };
+        // a caller prints the status (mlar does, with Display): rendering it is part of "repair does not crash"
+        let rendered = format!("{status} / {status:?}");
+        let _ = rendered.len();
         let st = status_name(&status);
         let mut unf = unfinished(&status);
         unf.sort();
@@ -445,7 +448,9 @@ pub fn main_many(args: &[String]) {
         if !only.is_empty() && !only.iter().any(|o| o == st) {
             continue;
         }
-        let par = Par::from_json(&json!({"stack": st, "seed": 9, "level": 1}));
+        // (the encrypt-only stacking also carries a COUNT of recipients: 1 500, the reader being one of the last)
+        let par = if st == "enc" { Par::from_json(&json!({"stack": st, "seed": 9, "level": 1, "nrecip": 1500, "reader": 1421})) }
+                  else { Par::from_json(&json!({"stack": st, "seed": 9, "level": 1})) };
         let content = |i: usize| -> Vec<u8> { archive::file_bytes(&par, (i % 251) as u64, i % 13, i % 29) };
         let r = guarded(|| -> Result<(), (String, String)> {
             let mut w = ArchiveWriter::from_config(Vec::new(), archive::writer_config(&par)).map_err(|e| ("create-error".to_string(), format!("{e:?}")))?;
